@@ -4,7 +4,10 @@ import (
 	"context"
 	crand "crypto/rand"
 	"encoding/binary"
+	"example.com/scion-time/net/scion"
 	"fmt"
+	"github.com/scionproto/scion/pkg/addr"
+	sdpb "github.com/scionproto/scion/pkg/proto/daemon"
 	"io"
 	"log/slog"
 	"math"
@@ -13,10 +16,12 @@ import (
 	"net/netip"
 	"slices"
 	"sort"
+	"strings"
 	"sync"
 	"time"
 
 	"github.com/scionproto/scion/pkg/snet"
+	snetpath "github.com/scionproto/scion/pkg/snet/path"
 
 	"example.com/scion-time/base/crypto"
 	"example.com/scion-time/core/client"
@@ -322,6 +327,12 @@ func c15Rounds(r *ev.Run) {
 		}
 		nC := 1 + rng.IntN(9)
 		interleavedCfg := rng.IntN(2) == 0
+		// every fifth scenario: the only path offered is one without interface metadata, as the path to a
+		// server in the local AS is (its fingerprint is the empty string); the client stays on it
+		intraAS := sc%5 == 4
+		if intraAS {
+			nC, interleavedCfg = 1+rng.IntN(2), true
+		}
 		clients := make([]*client.SCIONClient, nC)
 		spies := make([]*spyFilter, nC)
 		for i := range clients {
@@ -331,7 +342,7 @@ func c15Rounds(r *ev.Run) {
 		// every third scenario: servers that answer interleaved requests in basic mode, so that clients
 		// configured for interleaved mode never get into it
 		nw.mu.Lock()
-		nw.basic = sc%3 == 2
+		nw.basic = sc%3 == 2 && !intraAS
 		basicOnly := nw.basic
 		nw.mu.Unlock()
 		prevPath := map[int]int{} // dscp -> path of the previous round, if that round ended in interleaved mode
@@ -365,9 +376,17 @@ func c15Rounds(r *ev.Run) {
 				}
 				offered = keep
 			}
+			if intraAS {
+				offered = []int{0}
+			}
 			ps := make([]snet.Path, len(offered))
 			for i, p := range offered {
 				ps[i] = nw.paths[p]
+				if intraAS {
+					bare := nw.paths[p].(snetpath.Path)
+					bare.Meta = snet.PathMetadata{}
+					ps[i] = bare
+				}
 			}
 			nw.mu.Lock()
 			nw.obs = nil
@@ -479,6 +498,9 @@ func c15Rounds(r *ev.Run) {
 						bad = true
 					} else {
 						r.Class("round:interleaved-client-kept-its-path")
+						if intraAS {
+							r.Class("round:interleaved-client-kept-its-path (path without metadata, empty fingerprint)")
+						}
 					}
 				} else {
 					if spies[d-1].resets == resetsBefore[d-1] {
@@ -567,6 +589,9 @@ func c15Rounds(r *ev.Run) {
 		}
 	}
 	r.Set("single_client_choice_by_tercile_of_offer_list", fmt.Sprint(usage))
+	if r.Only() == "" || strings.HasPrefix(r.Only(), "svc") {
+		c15Service(r, nw, srvIP, cliIP)
+	}
 	r.CollectRaces(false, "")
 }
 
@@ -600,3 +625,126 @@ func init() {
 
 var _ = io.EOF
 var _ = rand.Int
+
+// c15Service: the rounds as the time service runs them — the offer of every round comes from the
+// project's Pather, which a (scripted) SCION daemon feeds, and one Pather serves all rounds.
+// The destination ISD-AS is listed once or twice (the service lists it once per reference clock
+// or peer configured in that AS).
+func c15Service(r *ev.Run, nw *c15Net, srvIP, cliIP netip.Addr) {
+	log := slog.New(slog.DiscardHandler)
+	rng := r.Rng("c15/service")
+	for sc := 0; sc < r.Pick(6, 120); sc++ {
+		id := fmt.Sprintf("svc%d", sc)
+		if r.Only() != "" && r.Only() != id {
+			continue
+		}
+		d, err := peer.NewFakeDaemon(netip.AddrPortFrom(blockIP(r, 15, 3), 0).String(), []byte("c15"), time.Hour)
+		if err != nil {
+			r.Inconclusive("fake daemon: " + err.Error())
+			return
+		}
+		d.LocalIA = uint64(c05LIA)
+		nP := 2 + rng.IntN(5)
+		var dps []*sdpb.Path
+		for p := 0; p < nP; p++ {
+			dp := peer.SCIONPath(rng, 2, 1+rng.IntN(3))
+			dp.PathMeta.CurrINF, dp.PathMeta.CurrHF = 0, 0
+			raw := make([]byte, dp.Len())
+			if err := dp.SerializeTo(raw); err != nil {
+				continue
+			}
+			dps = append(dps, peer.DaemonPath(raw, nw.srvs[p].Addr.String(), uint64(c05LIA), uint64(c05RIA), p))
+		}
+		d.SetPaths(uint64(c05RIA), dps)
+		listed := 1 + sc%2
+		dstIAs := []addr.IA{c05RIA}
+		if listed == 2 {
+			dstIAs = append(dstIAs, c05RIA)
+		}
+		pather := scion.StartPather(context.Background(), log, d.Addr(), dstIAs)
+		nC := 1 + rng.IntN(7)
+		clients := make([]*client.SCIONClient, nC)
+		for i := range clients {
+			clients[i] = &client.SCIONClient{Log: log, DSCP: uint8(i + 1), InterleavedMode: sc%3 != 0, Filter: &spyFilter{}}
+		}
+		la := udp.UDPAddr{IA: c05LIA, Host: &net.UDPAddr{IP: cliIP.AsSlice()}}
+		ra := udp.UDPAddr{IA: c05RIA, Host: &net.UDPAddr{IP: srvIP.AsSlice(), Port: 10123}}
+		prev := map[int]int{}
+		for round := 0; round < 5; round++ {
+			ps := pather.Paths(c05RIA)
+			fps := map[string]bool{}
+			for _, p := range ps {
+				fps[snet.Fingerprint(p).String()] = true
+			}
+			nw.mu.Lock()
+			nw.obs, nw.bad, nw.basic = nil, map[int]bool{}, false
+			nw.mu.Unlock()
+			ctx, cancel := context.WithTimeout(context.Background(), 2*time.Second)
+			var merr error
+			pnc := c02Recover(func() { _, _, merr = client.MeasureClockOffsetSCION(ctx, log, clients, la, ra, ps) })
+			cancel()
+			r.Eval(1)
+			nw.mu.Lock()
+			obs := append([]c15Obs{}, nw.obs...)
+			nw.mu.Unlock()
+			w := map[string]any{"clients": nC, "paths_of_the_daemon": nP, "destination_listed_times": listed, "paths_offered_by_the_pather": len(ps), "distinct_paths_offered": len(fps),
+				"round": round, "requests_seen(dscp,path,interleaved)": fmt.Sprint(obs), "error": fmt.Sprint(merr)}
+			if pnc != nil {
+				w["panic"] = fmt.Sprint(pnc)
+				r.Violation("MeasureClockOffsetSCION|panic|rounds fed by the Pather", id, w)
+				break
+			}
+			c2p, p2c := map[int]map[int]bool{}, map[int]map[int]bool{}
+			first := map[int]c15Obs{}
+			for _, o := range obs {
+				if c2p[o.dscp] == nil {
+					c2p[o.dscp] = map[int]bool{}
+					first[o.dscp] = o
+				}
+				if p2c[o.path] == nil {
+					p2c[o.path] = map[int]bool{}
+				}
+				c2p[o.dscp][o.path], p2c[o.path][o.dscp] = true, true
+			}
+			bad := false
+			for _, cc := range p2c {
+				if len(cc) > 1 {
+					r.Violation("MeasureClockOffsetSCION|wrong-value:two clients probed over the same path in one round|paths from the Pather", id, w)
+					bad = true
+					break
+				}
+			}
+			if !bad && len(c2p) != min(nC, nP) {
+				r.Violation("MeasureClockOffsetSCION|wrong-value:participants differ from min(clients, paths)|paths from the Pather", id, w)
+				bad = true
+			}
+			if !bad && len(fps) != nP {
+				r.Violation("Pather|wrong-value:offer does not consist of the daemon's paths|paths from the Pather", id, w)
+				bad = true
+			}
+			for dscp, pp := range prev {
+				if bad {
+					break
+				}
+				if !c2p[dscp][pp] || !first[dscp].interleaved {
+					r.Violation("MeasureClockOffsetSCION|wrong-value:client in interleaved mode did not keep its still-offered path|paths from the Pather", id, w)
+					bad = true
+				}
+			}
+			if bad {
+				break
+			}
+			prev = map[int]int{}
+			for i, c := range clients {
+				if c.InInterleavedMode() {
+					for p := range c2p[i+1] {
+						prev[i+1] = p
+					}
+				}
+			}
+			r.Class(fmt.Sprintf("service-flow:round over the Pather's offer (destination listed %d x)", listed))
+		}
+		d.Close()
+		r.Distinct(fmt.Sprint("svc", nC, nP, listed))
+	}
+}
